@@ -229,6 +229,7 @@ class Rendering:
         self.line = 0
         self.groups = []        # GroupInfo in visit order
         self.open_flat = []     # stack of open flat *groups*
+        self.ab_marks = []      # token indices at which an always_break node starts
 
     def choose(self):
         i = len(self.choices)
@@ -297,6 +298,7 @@ class Rendering:
             else:
                 self.go(t[1], mode, indent, path + (0,))
         elif k == 'ab':
+            self.ab_marks.append((len(self.out), len(self.groups)))
             for g in self.open_flat:
                 g.sawA = True
                 if not g.sawH:
